@@ -162,6 +162,9 @@ func c03Child(dir string, seed uint64, tier string) {
 			if k == 1 {
 				kind = "post-unknown-ids" // well-formed requests naming chats / users / articles that do not exist
 			}
+			if k == 2 {
+				kind = "xfer-same-ref-twice" // two transfer connections claim the same reference number at once
+			}
 			kindMu.Lock()
 			kindOf[src] = kind
 			kindMu.Unlock()
@@ -250,12 +253,12 @@ func c03Child(dir string, seed uint64, tier string) {
 					t.waitReply(90, 500*time.Millisecond)
 				case "xfer-random":
 					c.Write(r.Bytes(r.Pick(3, 16, 17, 200)))
-				case "xfer-valid-ref-garbage", "xfer-upload-declared-size":
+				case "xfer-valid-ref-garbage", "xfer-upload-declared-size", "xfer-same-ref-twice":
 					c.Write(handshakeBytes)
 					c.Write(login)
 					t.waitReply(1, 2*time.Second)
 					var req []byte
-					if kind == "xfer-valid-ref-garbage" {
+					if kind == "xfer-valid-ref-garbage" || kind == "xfer-same-ref-twice" {
 						req = refEncode(202, 50, RField{201, []byte("file.bin")})
 					} else {
 						req = refEncode(203, 50, RField{201, []byte(fmt.Sprintf("up-%s.bin", src))}, RField{202, encodePath([][]byte{[]byte("Uploads")})}, RField{108, be32(1 << 20)})
@@ -277,6 +280,26 @@ func c03Child(dir string, seed uint64, tier string) {
 						bb = bb[n:]
 					}
 					if len(ref) != 4 {
+						return
+					}
+					if kind == "xfer-same-ref-twice" {
+						var w2 sync.WaitGroup
+						for i := 0; i < 2; i++ {
+							w2.Add(1)
+							go func() {
+								defer w2.Done()
+								y, err := c03Dial(src, xfer)
+								if err != nil {
+									return
+								}
+								defer y.Close()
+								y.SetWriteDeadline(time.Now().Add(3 * time.Second))
+								y.Write(append(append([]byte("HTXF"), ref...), 0, 0, 0, 0, 0, 0, 0, 0))
+								yt := &tcpClient{c: y}
+								yt.readFor(40 * time.Millisecond)
+							}()
+						}
+						w2.Wait()
 						return
 					}
 					x, err := c03Dial(src, xfer)
@@ -341,6 +364,12 @@ func c03Child(dir string, seed uint64, tier string) {
 			if !sent.waitReply(nextID, 3*time.Second) {
 				res.SentinelOK = false
 				res.Note += "sentinel got no reply to a board post; "
+			}
+			nextID++
+			sc.Write(refEncode(202, nextID, RField{201, []byte("file.bin")}))
+			if !sent.waitReply(nextID, 3*time.Second) {
+				res.SentinelOK = false
+				res.Note += "sentinel got no reply to a download request; "
 			}
 		}
 	}
